@@ -217,6 +217,8 @@ func lexExtras(c *Ctx, nRandom int, f func(s string)) {
 		}
 		emit("a" + x + "b")
 		emit("1 " + x + " ;")
+		emit(x + "a") // first thing in the input
+		emit(x + " -- c\nx.1")
 		if cp < 0x3100 || cp%16 == 0 {
 			emit(x)
 			emit("a" + x + " b")
